@@ -203,11 +203,28 @@ def c_table(ctx, flows):
             if name is None:
                 msg = "the guard `%s` does not test rails.dialog" % first_line(guard.test)
             else:
-                vt = truth(evaluate(guard.test, {name: AObj(rails=AObj(dialog=True))}))
-                vf = truth(evaluate(guard.test, {name: AObj(rails=AObj(dialog=False))}))
-                vn = truth(evaluate(guard.test, {name: None}))
-                ok = vt is False and vf is not False and vn is False
-                msg = "guard `%s` is false for dialog=True (%s), satisfiable for dialog=False (%s), false without options (%s)" % (first_line(guard.test, 70), vt, vf, vn)
+                # evaluated for every combination of the OTHER categories: the hand-over depends on rails.dialog only
+                import itertools
+                msgs = [{"role": "assistant", "content": "x"}]
+                mname = None
+                for n in ast.walk(guard.test):
+                    if isinstance(n, ast.Subscript) and isinstance(n.value, ast.Subscript) and isinstance(n.value.value, ast.Name) and "role" in src(n):
+                        mname = n.value.value.id
+                bad = None
+                for i_, o_, r_ in itertools.product((True, False), repeat=3):
+                    envT = {name: AObj(rails=AObj(dialog=True, input=i_, output=o_, retrieval=r_)), mname: msgs}
+                    envF = {name: AObj(rails=AObj(dialog=False, input=i_, output=o_, retrieval=r_)), mname: msgs}
+                    vt = truth(evaluate(guard.test, envT))
+                    vf = truth(evaluate(guard.test, envF))
+                    if vt is not False or vf is not True:
+                        bad = (i_, o_, r_, vt, vf)
+                        break
+                vn = truth(evaluate(guard.test, {name: None, mname: msgs}))
+                ok = bad is None and vn is False
+                msg = ("guard `%s` (last message from the assistant) is false for dialog=True, TRUE for dialog=False whatever the other categories are, and false without options"
+                       % first_line(guard.test, 70)) if ok else \
+                    "guard `%s`: with input=%s output=%s retrieval=%s it evaluates to %s for dialog=True and %s for dialog=False (must be False / True): the supplied bot message is not handed over exactly when dialog rails are off" % (
+                        (first_line(guard.test, 70),) + (bad if bad else (None, None, None, None, vn)))
             v = src(st.value)
             if ok and not re.search(r"\[-1\]\[['\"]content['\"]\]$", v):
                 ok, msg = False, "the value moved to bot_message is `%s`, not the content of the last (assistant) message" % v
